@@ -51,6 +51,9 @@ def check(repo: Repo, rep, tier):
     from .C02 import file_loops_total
 
     file_loops_total(repo, rep)
+    from .C18 import apply_once
+
+    apply_once(repo, rep)
 
 
 def steps_of(repo: Repo, key: str) -> Dict[str, list]:
@@ -363,6 +366,27 @@ def tests_per_file(repo: Repo, rep):
         else:
             rep.violation("R-DRIVER-PER-FILE", f, (grows[0] if grows else lp), f"the list `{coll}` of test functions is {'grown across' if grows else 'not re-bound for'} the files while the loop that calls them runs once per file: the tests of earlier files are executed again, a test with module-level state records values a real session never sees", construct="tests-accumulate")
     rep.floor("R-DRIVER-PER-FILE", "test-call loops in run_inline", n, 1)
+    # every file is executed in a namespace of its own (a module per file under pytest): the dict handed to exec() inside the loop over
+    # the files is created inside that loop
+    for c in [x for x in body_nodes(f.node) if isinstance(x, ast.Call) and isinstance(x.func, ast.Name) and x.func.id == "exec" and len(x.args) >= 2 and isinstance(x.args[1], ast.Name)]:
+        ns = x_ns = c.args[1].id
+        loops = [a for a in ancestors(c) if isinstance(a, ast.For)]
+        if not loops:
+            continue
+        fl = loops[-1] if len(loops) > 1 else loops[0]
+        binds = [a for a in body_nodes(f.node) if (isinstance(a, ast.Assign) and any(isinstance(t, ast.Name) and t.id == ns for t in a.targets)) or (isinstance(a, ast.AnnAssign) and isinstance(a.target, ast.Name) and a.target.id == ns and a.value is not None)]
+        inside = [a for a in binds if any(y is a for y in ast.walk(fl))]
+        if binds and len(inside) == len(binds):
+            rep.ok("R-DRIVER-PER-FILE", f, c, f"`{ns}` is a fresh namespace for every file")
+        else:
+            rep.violation(
+                "R-DRIVER-PER-FILE",
+                f,
+                c,
+                f"the namespace `{ns}` handed to exec() is not created inside the loop over the files: all files of an example share one module namespace - the tests of the first file are found (and run) again after the "
+                "second file, same-named module-level helpers overwrite each other; under pytest every file is a module of its own",
+                construct="shared-namespace",
+            )
 
 
 def outer_compare(repo: Repo, rep):
